@@ -26,7 +26,8 @@ func (p *c02) Rule() string {
 }
 
 func (p *c02) Directed() []string {
-	return []string{"parent-refs-after-wait", "subflow-waiting-parent-paused", "results-overwritten", "webhook-result-then-wait", "batch-open-ticket-after-wait", "batch-start-session-after-wait", "missing-child-flow-on-reread", "msg-trigger-input-after-wait", "environment-refreshed-on-resume", "contact-refreshed-on-resume", "trigger-params-default-key", "datetime-field-dst-arithmetic", "date-only-field-time-fill", "long-path-visit-count", "dial-waits-resume-limit", "long-localized-category", "stale-references-every-action"}
+	return []string{"parent-refs-after-wait", "subflow-waiting-parent-paused", "results-overwritten", "webhook-result-then-wait", "batch-open-ticket-after-wait", "batch-start-session-after-wait", "missing-child-flow-on-reread", "msg-trigger-input-after-wait", "environment-refreshed-on-resume", "contact-refreshed-on-resume", "trigger-params-default-key", "datetime-field-dst-arithmetic", "date-only-field-time-fill", "long-path-visit-count", "dial-waits-resume-limit", "long-localized-category", "stale-references-every-action",
+		"trigger-history-manual-1-start-session-after-wait", "trigger-history-manual-5-start-session-after-wait", "trigger-history-msg-1-start-session-after-wait", "trigger-history-msg-5-start-session-after-wait"}
 }
 
 // histories of up to 120 resumes are executed under several restart masks, each call with a marshal / read / marshal round
@@ -52,6 +53,8 @@ func (p *c02) directed(name string) *gen.Scenario {
 			Trigger: t, Resumes: []gen.M{d.MsgResume(0, "x"), d.MsgResume(1, "y"), d.MsgResume(2, "z")}}
 	case "subflow-waiting-parent-paused":
 		return findDirected(engineDirected(), "subflow-wait-parent-wait")
+	case "trigger-history-manual-1-start-session-after-wait", "trigger-history-manual-5-start-session-after-wait", "trigger-history-msg-1-start-session-after-wait", "trigger-history-msg-5-start-session-after-wait":
+		return findDirected(engineDirected(), name)
 	case "results-overwritten":
 		return &gen.Scenario{Assets: d.BaseAssets(d.Flow("A", "messaging",
 			d.Node("a0", []any{act("r0", "set_run_result", gen.M{"name": "Color", "value": "red", "category": "Red"})}, nil, d.Exit("a0x", "a1")),
